@@ -118,14 +118,18 @@ ShapeOf(r) == LET src == r.res.src  n == Len(r.mesh) IN
               IF src = [ k \in 1..n |-> k - 1 ] THEN "identity"
               ELSE IF Len(src) = n /\ Range(src) = 0..(n - 1) THEN "perm" ELSE "proper"
 
+\* r.data: one sliced UxDataArray; r.datas: the variables of one sliced UxDataset (face-, node- and edge-centred
+\* together): every variable follows the elements of ITS OWN kind that the result grid kept
+DataList(r) == (IF Has(r, "data") THEN << r.data >> ELSE << >>) \o (IF Has(r, "datas") THEN r.datas ELSE << >>)
+DataAlignedOne(r, rr, dt) ==
+  CASE dt.kind = "face" -> FaceDataAligned(r.mesh, rr, dt.vals)
+    [] dt.kind = "node" -> NodeDataAligned(rr, dt.vals)
+    [] dt.kind = "edge" -> Has(r.res, "edges") /\ EdgeDataAligned(r.srcE, rr, r.res.edges, dt.vals)
 DataClauses(r, rr) ==
-  IF ~Has(r, "data") THEN [ DataFlags |-> TRUE ]
-  ELSE LET dt == r.data IN
-       [ DataFlags   |-> \A k \in DOMAIN dt.flags : dt.flags[k],
-         DataInner   |-> InnerOK(dt.vals, dt.L) /\ OneSource(dt.vals),
-         DataAligned |-> CASE dt.kind = "face" -> FaceDataAligned(r.mesh, rr, dt.vals)
-                           [] dt.kind = "node" -> NodeDataAligned(rr, dt.vals)
-                           [] dt.kind = "edge" -> Has(r.res, "edges") /\ EdgeDataAligned(r.srcE, rr, r.res.edges, dt.vals) ]
+  LET L == DataList(r) IN
+  [ DataFlags   |-> \A k \in 1..Len(L) : \A f \in DOMAIN L[k].flags : L[k].flags[f],
+    DataInner   |-> \A k \in 1..Len(L) : InnerOK(L[k].vals, L[k].L) /\ OneSource(L[k].vals),
+    DataAligned |-> \A k \in 1..Len(L) : DataAlignedOne(r, rr, L[k]) ]
 
 GridClauses(r, d) ==
   LET x  == r.res
